@@ -2,7 +2,7 @@
     scheduler does, a completed run has executed exactly the forest of units that hangs under the
     initial ones: the nodes filled are a permutation of the forest's, and the recorded error is one
     the forest raises. *)
-From Coq Require Import List String Bool Arith Permutation Lia.
+From Coq Require Import List String Bool Arith Permutation Lia ZifyBool ZifyNat.
 From Thunder Require Import Lib.Json Gql.Types Gql.Value Gql.Query Gql.Ref Gql.Exec.
 Import ListNotations.
 Open Scope list_scope.
@@ -239,6 +239,92 @@ Section Sched.
     destruct (heap_get p h2) as [[j| |n|ks]|]; auto.
     - f_equal. apply map_ext. intros i. now apply IH.
     - f_equal. apply map_ext. intros k. f_equal. now apply IH.
+  Qed.
+
+  (** ** Termination: the forest is finite, every step removes one of its units *)
+  Inductive Tsz : wunit -> nat -> Prop :=
+  | Tsz_intro : forall u ns,
+      Forall2 Tsz (x_units (exec_unit Q S fuel u)) ns -> Tsz u (Datatypes.S (list_sum ns)).
+
+  Section P_ind_strong.
+    Variable Pr : wunit -> tres -> Prop.
+    Hypothesis Hstep : forall u rs,
+      Forall2 P (x_units (exec_unit Q S fuel u)) rs -> Forall2 Pr (x_units (exec_unit Q S fuel u)) rs ->
+      Pr u (x_heap (exec_unit Q S fuel u) ++ heaps rs, x_errs (exec_unit Q S fuel u) ++ errs rs).
+    Fixpoint P_ind' (u : wunit) (r : tres) (H : P u r) {struct H} : Pr u r :=
+      match H in P u0 r0 return Pr u0 r0 with
+      | P_intro u0 rs HF =>
+          Hstep u0 rs HF
+            ((fix go (us : list wunit) (rs : list tres) (HF : Forall2 P us rs) {struct HF} : Forall2 Pr us rs :=
+                match HF in Forall2 _ us0 rs0 return Forall2 Pr us0 rs0 with
+                | Forall2_nil _ => Forall2_nil Pr
+                | Forall2_cons a b Hab Hrest => Forall2_cons a b (P_ind' a b Hab) (go _ _ Hrest)
+                end) _ _ HF)
+      end.
+  End P_ind_strong.
+
+  Lemma P_size : forall u r, P u r -> exists n, Tsz u n.
+  Proof.
+    intros u r H. induction H as [u rs _ IH] using P_ind'.
+    assert (E : exists ns, Forall2 Tsz (x_units (exec_unit Q S fuel u)) ns).
+    { clear -IH. induction IH as [|a b la lb [n Hn] _ [ns Hns]]; [exists []; constructor|].
+      exists (n :: ns). constructor; auto. }
+    destruct E as [ns Hns]. exists (Datatypes.S (list_sum ns)). now constructor.
+  Qed.
+
+  Lemma Forall2_P_size : forall us rs, Forall2 P us rs -> exists ns, Forall2 Tsz us ns.
+  Proof.
+    intros us rs H. induction H as [|a b la lb Hab _ [ns Hns]]; [exists []; constructor|].
+    destruct (P_size _ _ Hab) as [n Hn]. exists (n :: ns). constructor; auto.
+  Qed.
+
+  Lemma list_sum_perm : forall a b, Permutation a b -> list_sum a = list_sum b.
+  Proof. intros a b H. induction H; simpl; lia. Qed.
+
+  Lemma take_nth_none : forall {A} n (l : list A), take_nth n l = None -> List.length l <= n.
+  Proof.
+    induction n; destruct l as [|a l]; simpl; intros H; try lia; try discriminate.
+    destruct (take_nth n l) as [[y t]|] eqn:E; [discriminate|]. apply IHn in E. lia.
+  Qed.
+
+  Lemma step_size : forall st k ns,
+    Forall2 Tsz (st_pending st) ns ->
+    exists ns', Forall2 Tsz (st_pending (step Q S fuel st k)) ns' /\ list_sum ns' = pred (list_sum ns).
+  Proof.
+    intros st k ns HF. unfold step.
+    destruct (take_nth (k mod List.length (st_pending st)) (st_pending st)) as [[u rest]|] eqn:Et.
+    - destruct (take_nth_Forall2 _ _ _ _ _ _ HF Et) as [n [ns' [Et' [Hn HF']]]].
+      inversion Hn as [u0 nc Hc]; subst. simpl.
+      exists (ns' ++ nc). split; [now apply Forall2_app|].
+      apply take_nth_perm in Et'. apply list_sum_perm in Et'. rewrite Et'. simpl. rewrite list_sum_app. lia.
+    - exists ns. split; auto.
+      destruct (st_pending st) as [|u t] eqn:Ep.
+      + inversion HF; subst. reflexivity.
+      + exfalso.
+        assert (Hlt : k mod List.length (u :: t) < List.length (u :: t)).
+        { apply Nat.mod_upper_bound. discriminate. }
+        apply take_nth_none in Et. apply (Nat.lt_irrefl (List.length (u :: t))).
+        eapply Nat.le_lt_trans; [exact Et|exact Hlt].
+  Qed.
+
+  Lemma Tsz_pos : forall us ns, Forall2 Tsz us ns -> list_sum ns = 0 -> us = [].
+  Proof.
+    intros us ns H. destruct H as [|a b la lb Hab _]; auto.
+    inversion Hab; subst. simpl. discriminate.
+  Qed.
+
+  (** Every schedule at least as long as the forest is large leaves nothing pending. *)
+  Theorem termination : forall st0 rs,
+    Forall2 P (st_pending st0) rs ->
+    exists n, forall sched, n <= List.length sched -> complete (run_sched Q S fuel sched st0) = true.
+  Proof.
+    intros st0 rs HP. destruct (Forall2_P_size _ _ HP) as [ns Hns].
+    exists (list_sum ns). intros sched. clear HP rs. revert st0 ns Hns.
+    induction sched as [|k t IH]; intros st0 ns Hns Hlen.
+    - simpl in Hlen. assert (E : list_sum ns = 0) by lia.
+      simpl. unfold complete. now rewrite (Tsz_pos _ _ Hns E).
+    - simpl. destruct (step_size st0 k ns Hns) as [ns' [Hns' Es]].
+      apply (IH _ ns' Hns'). simpl in Hlen. lia.
   Qed.
 
   Lemma step_top : forall st k, st_top (step Q S fuel st k) = st_top st.
